@@ -244,7 +244,9 @@ func (g *Gen) applyContract(st *State, v ssa.Value, ct *Contract, fn *ssa.Functi
 			}
 		}
 		// callee may allocate (also a "pure" one: pure = no effect on pre-existing state)
+		frBefore := g.frontier(st)
 		g.bumpFrontier(st)
+		g.refreshFreshRegion(st, sig, frBefore)
 	}
 	rs := g.freshResults(st, sanitize(short), sig)
 	for i, r := range rs {
@@ -889,4 +891,78 @@ func (g *Gen) bumpFrontier(st *State) {
 	nf := g.sc.fresh("frontier", "Int")
 	g.sc.emit("(assert (>= %s %s))", nf, fr)
 	st.mem["!frontier"] = nf
+}
+
+// reachableTags: heap tags of cells reachable from a value of type t (through pointers, slices, maps, fields).
+func (g *Gen) reachableTags(t types.Type, depth int, seen map[string]bool, out map[string]bool) {
+	if depth > 5 {
+		return
+	}
+	key := t.String()
+	switch u := t.Underlying().(type) {
+	case *types.Pointer:
+		if seen[key] {
+			return
+		}
+		seen[key] = true
+		g.collectElemTags(u.Elem(), out)
+		g.reachableInside(u.Elem(), depth+1, seen, out)
+	case *types.Slice:
+		if seen[key] {
+			return
+		}
+		seen[key] = true
+		g.collectElemTags(u.Elem(), out)
+		g.reachableInside(u.Elem(), depth+1, seen, out)
+	case *types.Map:
+		if seen[key] {
+			return
+		}
+		seen[key] = true
+		d, v, l := g.mapTags(u)
+		out[d], out[v], out[l] = true, true, true
+		g.reachableTags(u.Elem(), depth+1, seen, out)
+		g.reachableTags(u.Key(), depth+1, seen, out)
+	case *types.Struct:
+		g.reachableInside(t, depth, seen, out)
+	}
+}
+
+func (g *Gen) reachableInside(t types.Type, depth int, seen map[string]bool, out map[string]bool) {
+	switch u := t.Underlying().(type) {
+	case *types.Struct:
+		for i := 0; i < u.NumFields(); i++ {
+			g.reachableTags(u.Field(i).Type(), depth, seen, out)
+		}
+	case *types.Array:
+		g.reachableTags(u.Elem(), depth, seen, out)
+	default:
+		g.reachableTags(t, depth, seen, out)
+	}
+}
+
+// refreshFreshRegion: a callee may allocate objects and return them; the heap cells of objects allocated during the
+// call (rb >= frontier before the call) are unconstrained afterwards (the callee's ensures then describes them).
+func (g *Gen) refreshFreshRegion(st *State, sig *types.Signature, frBefore string) {
+	tags := map[string]bool{}
+	seen := map[string]bool{}
+	for i := 0; i < sig.Results().Len(); i++ {
+		g.reachableTags(sig.Results().At(i).Type(), 0, seen, tags)
+	}
+	var tl []string
+	for t := range tags {
+		tl = append(tl, t)
+	}
+	sortStrings(tl)
+	for _, t := range tl {
+		srt, ok := g.sc.tagSort[t]
+		if !ok || !strings.HasPrefix(srt, "(Array Ref ") {
+			continue
+		}
+		cur := g.sc.lookup(st, t)
+		g.havocTag(st, t)
+		nw := st.mem[t]
+		g.sc.emit("(assert (forall ((r Ref)) (! (=> (< (rb r) %s) (= (select %s r) (select %s r))) :pattern ((select %s r)))))", frBefore, nw, cur, nw)
+		g.sc.oldEq[nw] = g.sc.oldBase(cur)
+	}
 }
